@@ -22,6 +22,23 @@
 #include "oomd/engine/EngineTypes.h"
 #include "oomd/util/ScopeGuard.h"
 
+namespace {
+// "system.slice/foo\\x2dbar.service" or "a[1]" as a pattern that matches only
+// itself
+std::string escapeGlob(const std::string& path) {
+  static const std::string kSpecial = "\\*?[]{}";
+  std::string escaped;
+  escaped.reserve(path.size());
+  for (char c : path) {
+    if (kSpecial.find(c) != std::string::npos) {
+      escaped.push_back('\\');
+    }
+    escaped.push_back(c);
+  }
+  return escaped;
+}
+} // namespace
+
 namespace Oomd {
 namespace Engine {
 
@@ -345,7 +362,9 @@ void Ruleset::registerRunnableRulesetForCgroupPath(
     auto plugin = registry.create(it->get()->getName());
     plugin->setName(it->get()->getName());
     auto args = it->get()->getPluginArgs();
-    args.try_emplace("cgroup", cgroup.relativePath());
+    // plugins read `cgroup` as a wildcard pattern: escape what glob(3) would
+    // interpret, so that the default targets exactly this cgroup
+    args.try_emplace("cgroup", escapeGlob(cgroup.relativePath()));
     plugin->init(args, PluginConstructionContext(cgroup.cgroupFs()));
     action_group.emplace_back(plugin);
   }
